@@ -14,3 +14,79 @@ package blobstream
 //@   require GetDataRootTupleRoot public
 //@   require GetDataRootTupleInclusionProof public
 //@ end
+
+// ---------------------------------------------------------------------------------------------
+// C12: data-root-tuple roots and inclusion proofs. A range is served only if it is non-empty, starts above
+// zero, spans at most the block limit and ends at most one past the local head; a proof is produced only
+// for a height inside the range, and it is the proof at position height-start of the tuples of exactly
+// that range, fetched start first and then in order; the padding of an encoded height is left padding
+// with zeros to exactly the requested length. (merkle.ProofsFromByteSlices yields one proof per item, the
+// header store returns the heights asked for: assumed.)
+//@ func padBytes
+//@   property C12
+//@   nopanic
+//@   requires length >= 0
+//@   ensures err == nil <==> len(byt) <= length
+//@   ensures err == nil ==> len(result0) == length
+//@   ensures err == nil ==> forall i int :: 0 <= i && i < len(byt) ==> result0[length - len(byt) + i] == old(byt[i])
+//@   ensures err == nil && len(byt) < length ==> forall i int :: 0 <= i && i < length - len(byt) ==> result0[i] == 0
+
+//@ func (*Service).validateDataRootTupleRootRange
+//@   property C12
+//@   requires s != nil
+//@   ensures err == nil ==> start != 0 && start < end && end - start <= dataRootTupleRootBlocksLimit
+//@   checks err == nil ==> end <= currentLocalHeader.Height() + 1
+
+//@ func (*Service).validateDataRootInclusionProofRequest
+//@   property C12
+//@   requires s != nil
+//@   callpre Service).validateDataRootTupleRootRange: $arg2 == start && $arg3 == end
+//@   ensures err == nil ==> start != 0 && start <= height && height < end && end - start <= dataRootTupleRootBlocksLimit
+
+//@ extern github.com/cometbft/cometbft/crypto/merkle.ProofsFromByteSlices
+//@   ensures len(proofs) == len(items)
+//@ func proveDataRootTuples
+//@   property C12
+//@   nopanic
+//@   requires rangeStartHeight <= height && height - rangeStartHeight < len(encodedDataRootTuples)
+//@   checks err == nil ==> result0 == proofs[height - rangeStartHeight]
+
+//@ func hashDataRootTuples
+//@   property C12
+//@   nopanic
+//@   callpre merkle.HashFromByteSlices: $arg0 == encodedDataRootTuples
+//@   ensures err == nil ==> len(encodedDataRootTuples) > 0
+
+// (A-STORE: a header asked for by height has that height; a range asked for after a header up to `to`
+// exclusive holds exactly the heights in between, in order)
+//@ extern (github.com/celestiaorg/go-header.Getter).GetByHeight
+//@   ensures err == nil ==> result0 != nil && result0.Height() == arg1
+//@ extern (github.com/celestiaorg/go-header.Getter).GetRangeByHeight
+//@   ensures err == nil && to > from.Height() ==> len(result0) == to - from.Height() - 1
+//@   ensures err == nil ==> forall i int :: 0 <= i && i < len(result0) ==> result0[i] != nil && result0[i].Height() == from.Height() + 1 + i
+
+//@ func (*Service).fetchEncodedDataRootTuples
+//@   property C12
+//@   requires s != nil && start < end
+//@   callpre Getter).GetByHeight: $arg2 == start
+//@   callpre Getter).GetRangeByHeight: $arg2 == startHeader && $arg3 == end
+//@   callpre blobstream.encodeDataRootTuple: $arg0 == headers[rangeindex].Height()
+//@   ensures err == nil ==> len(result0) == end - start
+//@   loop 1: invariant -1 <= rangeindex && rangeindex < len(headers) && len(headers) == end - start && len(encodedDataRootTuples) == rangeindex + 1
+//@   loop 1: invariant forall k int :: 0 <= k && k < len(headers) ==> headers[k] != nil && headers[k].Height() == start + k
+
+//@ func (*Service).GetDataRootTupleInclusionProof
+//@   property C12
+//@   noframe
+//@   requires s != nil
+//@   callpre Service).validateDataRootInclusionProofRequest: $arg2 == height && $arg3 == start && $arg4 == end
+//@   callpre Service).fetchEncodedDataRootTuples: $arg2 == start && $arg3 == end
+//@   callpre blobstream.proveDataRootTuples: $arg0 == encodedDataRootTuples && $arg1 == start && $arg2 == height
+
+//@ func (*Service).GetDataRootTupleRoot
+//@   property C12
+//@   noframe
+//@   requires s != nil
+//@   callpre Service).validateDataRootTupleRootRange: $arg2 == start && $arg3 == end
+//@   callpre Service).fetchEncodedDataRootTuples: $arg2 == start && $arg3 == end
+//@   callpre blobstream.hashDataRootTuples: $arg0 == encodedDataRootTuples
